@@ -156,6 +156,56 @@ NUM_ATTRS = {'size', 'ival', 'mask', 'blocksize', 'blocklen', 'wsize', 'bitcnt',
              'wnd_size', 'chklen', 'data_len', 'count', '__sz', 'bytesize', 'fanout', 'depth', 'ndepth', 'inner'}
 
 
+SEQ_ATTRS = set()      # attributes that hold a Python sequence in the module under analysis (set_context)
+
+
+def set_context(rel):
+    """Poly keeps its coefficients in the list `ival` (Bits keeps an int there): `+` on it is concatenation."""
+    global SEQ_ATTRS
+    SEQ_ATTRS = {'ival'} if rel == 'crysp/poly.py' else set()
+
+
+def is_pyint(t):
+    """certainly a plain Python int (not a Bits / Poly / float): constants, range indices, len(), integer attributes"""
+    tag = t[0]
+    if tag == 'c':
+        return type(t[1]) is int
+    if tag == 'it':
+        return t[-1] == 'num'
+    if tag == 'attr':
+        return t[2] in NUM_ATTRS and t[2] not in SEQ_ATTRS and t[2] != 'ival'
+    if tag == 'call':
+        f = t[1]
+        return f[0] in ('g', 'b') and f[1] in ('len', 'ord', 'int') or (f[0] == 'attr' and f[2] in ('int', 'hw', 'bit_length'))
+    if tag in ('+', '*'):
+        return all(is_pyint(x) for x in t[1])
+    if tag in ('//', '%', '-', '<<', '>>', '&', '|', '^', '**'):
+        return all(is_pyint(x) for x in t[1])
+    if tag == 'neg':
+        return is_pyint(t[1])
+    if tag == 'hoist':
+        return is_pyint(t[1])
+    if tag == 'afterlocal':
+        return is_pyint(t[2])
+    if tag == 'ite':
+        return is_pyint(t[2]) and is_pyint(t[3])
+    return False
+
+
+def is_bytes(t):
+    tag = t[0]
+    if tag == 'c':
+        return isinstance(t[1], bytes)
+    if tag == '*':
+        return any(is_bytes(x) for x in t[1]) and all(is_bytes(x) or is_pyint(x) for x in t[1])
+    if tag == '+':
+        return all(is_bytes(x) for x in t[1])
+    if tag == 'call':
+        f = t[1]
+        return (f[0] in ('g', 'b') and f[1] in ('bytes', 'pack')) or (f[0] == 'attr' and f[2] in ('bytes', 'join') and (f[2] != 'join' or is_bytes(f[1])))
+    return False
+
+
 def kind_of(t):
     """'num' | 'seq' | None (unknown)"""
     tag = t[0]
@@ -183,6 +233,8 @@ def kind_of(t):
         return None
     if tag in ('phi', 'after', 'it') and type(t[-1]) is str:
         return t[-1]
+    if tag == 'attr' and t[2] in SEQ_ATTRS:
+        return 'seq'
     if tag == 'attr' and t[2] in NUM_ATTRS:
         return 'num'
     if tag == 'afterlocal':
@@ -300,6 +352,20 @@ def mk_neg(b, opts=None):
     return mk_bin('*', C(-1), b, opts)
 
 
+def force_num(t, opts=None):
+    """t is known not to be a Python sequence: rebuild `+` inside it as the commutative sum"""
+    if t[0] == '+':
+        o2 = Opts(plus_commutes=True, ordered=False) if opts is None else Opts(plus_commutes=True, ordered=opts.ordered)
+        acc = None
+        for x in t[1]:
+            x = force_num(x, opts)
+            acc = x if acc is None else mk_bin('+', acc, x, o2)
+        return acc
+    if t[0] == 'ite':
+        return ('ite', t[1], force_num(t[2], opts), force_num(t[3], opts))
+    return t
+
+
 def mk_bin(op, a, b, opts=None):
     # constant folding
     if is_c(a) and is_c(b):
@@ -309,6 +375,26 @@ def mk_bin(op, a, b, opts=None):
             pass
         except Exception:
             pass   # e.g. TypeError: keep symbolic, a kind rule may report it
+    if op in ('^', '&', '|', '<<', '>>', '-', '%', '//', '**') and not (opts is not None and opts.ordered):
+        # an operand of these operators is never a Python sequence, so a `+` inside it commutes
+        if not (op == '%' and (kind_of(a) == 'seq' or (a[0] == '+' and any(kind_of(x) == 'seq' for x in a[1])))):
+            a = force_num(a, opts)
+        if not (op == '%' and kind_of(a) == 'seq'):
+            b = force_num(b, opts)
+    if op == '**' and a == C(2) and not is_c(b):
+        return mk_bin('<<', C(1), b, opts)
+    if is_int(b) and type(b[1]) is int and is_pyint(a) and not (opts is not None and opts.ordered):
+        # plain Python ints: x<<c == x*2^c, x>>c == x//2^c, x & (2^c-1) == x % 2^c
+        c = b[1]
+        if op == '<<' and 0 <= c <= 256:
+            return mk_bin('*', a, C(1 << c), opts)
+        if op == '>>' and 0 <= c <= 256:
+            return mk_bin('//', a, C(1 << c), opts)
+        if op == '&' and c > 0 and (c & (c + 1)) == 0:
+            return mk_bin('%', a, C(c + 1), opts)
+    if op == '&' and is_int(a) and type(a[1]) is int and is_pyint(b) and a[1] > 0 and (a[1] & (a[1] + 1)) == 0 \
+            and not (opts is not None and opts.ordered):
+        return mk_bin('%', b, C(a[1] + 1), opts)
     if op == '-' and ((opts is not None and opts.plus_commutes) or (kind_of(a) == 'num' and kind_of(b) == 'num')):
         # linear normal form: a - b  ->  a + (-1)*b   (holds in Z and in Z/2^w)
         return mk_bin('+', a, mk_neg(b, opts), opts)
@@ -367,6 +453,57 @@ CMP_NEG = {'<': '>=', '<=': '>', '>': '<=', '>=': '<', '==': '!=', '!=': '==',
            'is': 'isnot', 'isnot': 'is', 'in': 'notin', 'notin': 'in'}
 
 
+def _has_float(t):
+    return any(x[0] == 'c' and isinstance(x[1], float) for x in walk(t)) or any(x[0] == '/' for x in walk(t))
+
+
+_LIN = None
+
+
+def _int_cmp(op, a, b):
+    """a < b / a <= b over integers in linear normal form: `<=` becomes `<` (+1), terms with a negative coefficient go to
+    the left, the others to the right, the constant to the side where it is positive:  0 < n-len(k)  ==  len(k) < n ;
+    -i < sz+1  ==  -i <= sz."""
+    global _LIN
+    if _LIN is None:
+        _LIN = Opts(plus_commutes=True)
+    d = mk_bin('+', force_num(b, _LIN), mk_neg(force_num(a, _LIN), _LIN), _LIN)
+    if op == '<=':
+        d = mk_bin('+', d, C(1), _LIN)
+    items = list(d[1]) if d[0] == '+' else [d]
+    left, right, const = [], [], 0
+    for x in items:
+        if is_int(x) and type(x[1]) is int:
+            const += x[1]
+            continue
+        coef, base = 1, x
+        if x[0] == '*' and len(x[1]) >= 2:
+            cs = [y for y in x[1] if is_int(y) and type(y[1]) is int]
+            if len(cs) == 1:
+                coef = cs[0][1]
+                rest = [y for y in x[1] if y is not cs[0]]
+                base = rest[0] if len(rest) == 1 else ('*', tuple(rest))
+        if coef < 0:
+            left.append(base if coef == -1 else mk_bin('*', C(-coef), base, _LIN))
+        else:
+            right.append(x)
+    if not left and not right:
+        return C(0 < const)
+    if const > 0:
+        right.append(C(const))
+    elif const < 0:
+        left.append(C(-const))
+
+    def total(xs):
+        if not xs:
+            return C(0)
+        acc = xs[0]
+        for y in xs[1:]:
+            acc = mk_bin('+', acc, y, _LIN)
+        return acc
+    return ('cmp', '<', total(left), total(right))
+
+
 def mk_cmp(op, a, b):
     # fold
     if is_c(a) and is_c(b) or (op in ('in', 'notin') and is_c(a) and b[0] in ('list', 'tuple', 'set', 'dict', 'range', 'c')):
@@ -388,6 +525,11 @@ def mk_cmp(op, a, b):
         op, a, b = '<', b, a
     elif op == '>=':
         op, a, b = '<=', b, a
+    if op in ('<', '<=') and (is_pyint(a) or is_pyint(b)) and kind_of(a) != 'seq' and kind_of(b) != 'seq' \
+            and not _has_float(a) and not _has_float(b):
+        r = _int_cmp(op, a, b)
+        if r is not None:
+            return r
     if op in ('==', '!=', 'is', 'isnot'):
         if skey(b) < skey(a):
             a, b = b, a
@@ -799,6 +941,9 @@ class PE:
         if isinstance(n.op, ast.Invert):
             if is_int(v):
                 return C(~v[1])
+            if kind_of(v) == 'num':
+                # ~x == -x-1 for ints and (mod 2^w) for bit vectors
+                return mk_bin('+', C(-1), mk_neg(v, self.opts), self.opts)
             return ('inv', v)
         if isinstance(n.op, ast.UAdd):
             return v
@@ -1044,6 +1189,17 @@ class PE:
         return res
 
     def call(self, f, args, kw, env, node=None):
+        args = tuple(args)
+        if f[0] == 'attr' and f[2] == 'get' and len(args) == 2 and args[1] == NONE and not kw:
+            args = args[:1]                                   # d.get(k, None) is d.get(k)
+        if f[0] == 'b' and f[1] == 'getattr' and len(args) == 2 and not kw and is_c(args[1]) and isinstance(args[1][1], str):
+            return get_attr(args[0], args[1][1])              # getattr(o, 'name') is o.name
+        if f[0] == 'b' and f[1] == 'dict' and not args and kw:
+            return ('dict', tuple(sorted(((C(k[1]), k[2]) for k in kw), key=lambda kv: skey(kv[0]))))
+        if f[0] == 'b' and f[1] == 'bytes' and len(args) == 1 and not kw and is_bytes(args[0]):
+            return args[0]                                    # bytes(b) of a bytes value is b
+        if f[0] == 'b' and f[1] == 'divmod' and len(args) == 2 and not kw and is_pyint(args[0]) and is_pyint(args[1]):
+            return ('tuple', (mk_bin('//', args[0], args[1], self.opts), mk_bin('%', args[0], args[1], self.opts)))
         if self.call_hook is not None:
             r = self.call_hook(self, f, args, kw, env, node)
             if r is not None:
@@ -1375,6 +1531,8 @@ class PE:
             self.emit_return(v[2], state, fa)
             self.emit_return(v[3], state, fb)
             self.emit_if(v[1], fa, fb, effects)
+        elif v == NONE:
+            effects.append(('exit', 'end', NONE, state))      # `return` / `return None` is falling off the end
         else:
             effects.append(('exit', 'return', v, state))
 
